@@ -273,6 +273,11 @@ def element_spaces(rng):
         'discr': odl.uniform_discr([0, 0], [1, 2], (2, 3)), 'discr-c': odl.uniform_discr([0, 0], [1, 2], (2, 3), dtype=complex),
         'discr-bdry': odl.uniform_discr([0, 0], [1, 2], (2, 3), nodes_on_bdry=True), 'rn(4)': odl.rn(4), 'exp1': odl.rn((2, 3), exponent=1),
         'discr1d': odl.uniform_discr(0, 1, 5), 'rn(2,3,2)': odl.rn((2, 3, 2)),
+        # half / single precision (float16 -> complex64 -> float32 is not a round trip of dtypes), and a default-weighted
+        # discretization whose anisotropic cells have volume exactly 1
+        'f16': odl.rn((2, 3), dtype='float16'), 'c64': odl.cn((2, 3), dtype='complex64'), 'c64-w': odl.cn((2, 3), dtype='complex64', weighting=2.0),
+        'discr-f16': odl.uniform_discr([0, 0], [1, 2], (2, 3), dtype='float16'),
+        'discr-cv1': odl.uniform_discr([0, 0], [8, 3], (4, 6)), 'discr-cv1-3d': odl.uniform_discr([0, 0, 0], [4, 1, 1], (2, 2, 4)),
     }
 
 
@@ -360,7 +365,8 @@ def run_elements(ctx):
                 rs, cs = sp.real_space, sp.complex_space
                 if rs.shape != sp.shape or cs.shape != sp.shape or not rs.is_real or not cs.is_complex:
                     ctx.violation('real/complex_space', skind, 'shape/field')
-                if cs.real_space != rs or rs.complex_space != cs:
+                # (float16 -> complex64 -> float32: a round trip only where the documented dtype maps are inverse to each other)
+                if (cs.real_dtype == rs.dtype and cs.real_space != rs) or (rs.complex_dtype == cs.dtype and rs.complex_space != cs):
                     ctx.violation('real/complex_space', skind, 'roundtrip')
                 if (sp.is_real and rs != sp) or (sp.is_complex and cs != sp):
                     ctx.violation('real/complex_space', skind, 'own-counterpart!=self')
@@ -368,6 +374,17 @@ def run_elements(ctx):
                     ctx.violation('real/complex_space', skind, 'const-weight')
                 if rs.exponent != sp.exponent or cs.exponent != sp.exponent:
                     ctx.violation('real/complex_space', skind, 'exponent')
+                # dtypes follow the documented real <-> complex dtype maps, also after a chain of conversions
+                chain = [sp, cs, cs.real_space, cs.real_space.complex_space, rs, rs.complex_space, rs.complex_space.real_space]
+                for t in chain:
+                    if t.is_real and (t.dtype != t.real_dtype or t.complex_space.dtype != t.complex_dtype):
+                        ctx.violation('real/complex_space', skind, 'dtype-map', space=util.srepr(t, 60))
+                    if t.is_complex and (t.dtype != t.complex_dtype or t.real_space.dtype != t.real_dtype):
+                        ctx.violation('real/complex_space', skind, 'dtype-map', space=util.srepr(t, 60))
+                    if t.is_complex:
+                        z = t.zero()
+                        if z.real.space.dtype != t.real_dtype or z.real.space != t.real_space:
+                            ctx.violation('real/complex_space', skind, 'x.real-not-in-real_space', space=util.srepr(t, 60))
             except Exception as e:
                 ctx.violation('real/complex_space', skind, 'raises:' + type(e).__name__, message=str(e)[:200])
         # element indexing commutes with asarray
@@ -375,7 +392,7 @@ def run_elements(ctx):
         if sp.ndim == 1:
             idxs = [0, -1, slice(None), slice(1, None), Ellipsis, [0, 1], [1, 0, 1], slice(None, None, 2), slice(None, None, -1), x.asarray() > 1]
         else:
-            idxs = [0, -1, (0, 1), (slice(None), 1), (Ellipsis, 0), (1, slice(0, 2)), slice(0, 1), [0, 1], (slice(None), [0, 2]),
+            idxs = [0, -1, (0, 1), (slice(None), 1), (Ellipsis, 0), (1, slice(0, 2)), slice(0, 1), [0, 1], (slice(None), [0, sp.shape[1] - 1]),
                     x.asarray() > 2, (slice(None, None, -1), slice(None, None, 2)), (Ellipsis,), (slice(None),) * sp.ndim]
         for ix in idxs:
             ctx.ev('element-indexing')
@@ -432,6 +449,13 @@ def run_elements(ctx):
                         axs = [ax] if isinstance(ax, int) else list(np.arange(sp.ndim)[ax])
                         if b.partition != sp.partition.byaxis[axs]:
                             ctx.violation('byaxis', cfg, 'partition')
+                        # a default-weighted space (weight = cell volume) restricts to the default-weighted space of the
+                        # selected axes, whatever the numerical value of the cell volume
+                        if hasattr(sp.weighting, 'const') and sp.weighting.const == sp.cell_volume and sp.exponent == 2.0:
+                            want = odl.uniform_discr_frompartition(sp.partition.byaxis[axs], dtype=sp.dtype, axis_labels=[sp.axis_labels[i] for i in axs])
+                            if not np.isclose(b.weighting.const, b.cell_volume) or b != want:
+                                ctx.violation('byaxis', cfg, 'not-the-default-weighted-space-of-the-selected-axes',
+                                              got=float(b.weighting.const), cell_volume=float(b.cell_volume))
                         if tuple(b.axis_labels) != tuple(np.array(sp.axis_labels)[axs]):
                             ctx.violation('byaxis', cfg, 'axis_labels')
                 except Exception as e:
